@@ -355,6 +355,15 @@ NonOverlapConstraints::getCurrSubConstraintAlternatives(vpsc::Variables vs[])
 
     // Take the first in the list.
     ShapePairInfo& info = pairInfoList.front();
+    if (info.processed)
+    {
+        // Processed pairs are kept at the back of the list, so once one
+        // of them reaches the front every pair has been handled (whether 
+        // it could be satisfied or not).  Looking at it again would 
+        // retry an unsatisfiable pair forever.
+        _currSubConstraintIndex = pairInfoList.size();
+        return alternatives;
+    }
     if (pairInfoListSorted == false)
     {
         // Only need to compute if not sorted.
